@@ -202,7 +202,7 @@ def case_key(c, out):
     key = {'op': c['op'], 'raised': out.get('cls', '') if out.get('kind') == 'exc' else ''}
     if c['op'] in ('concat1', 'concat0'):
         xs = seq(c['xs'])
-        key.update(shapes=','.join(shape_of(x) for x in xs), join=c['join'], empty_joint=False)
+        key.update(shapes=','.join(shape_of(x) for x in xs), join=c['join'], has_empty=any(x.get('k') in ('s', 'pf') and not seq(x['t']) for x in xs))
         if c['op'] == 'concat1':
             key.update(names=c['names']['k'], method=','.join(str(m[0]) for m in seq(c['ms'])), limit=c['lim'])
     elif c['op'] == 'as_series':
@@ -211,8 +211,12 @@ def case_key(c, out):
         key.update(shape=shape_of(c['x']), by='name' if c['name'] != NONAME else 'position' if c['i'] != -1 else 'nothing')
     elif c['op'] in ('columns', 'recolumn'):
         key.update(policy=c['pol'])
-        if c['op'] == 'recolumn':          # a list of names as long as the list of members is dealt out by the loop decorator
-            key.update(names_like_members=(c['tree']['k'] == 'l' and len(seq(c['names'])) == len(seq(c['tree']['items']))))
+        if c['op'] == 'recolumn':          # a LIST of names as long as some list of members is dealt out by the loop decorator
+            n = len(seq(c['names']))
+
+            def dealt(t):
+                return t.get('k') in ('l', 'd') and ((t['k'] == 'l' and len(seq(t['items'])) == n) or any(dealt(i) for i in seq(t['items'])))
+            key.update(names_as=c.get('as', ''), names_like_members=(c.get('as') == 'list' and dealt(c['tree'])))
     elif c['op'] == 'np_reindex':
         key.update(shape=shape_of(c['a']), empty_array=(c['a'].get('n', c['a'].get('rows')) == 0), empty_index=not seq(c['T']))
     elif c['op'] == 'drop_dup':
@@ -233,7 +237,11 @@ class Reporter(object):
         self.ctx, self.per, self.seen = ctx, per, {}
 
     def __call__(self, clause, case, detail):
-        sig = (clause, case.get('op'), case.get('raised', ''), case.get('empty_array', ''), case.get('n_masks', '') == 0)
+        from harness.core import _match
+        if any(_match(k, {'clause': clause, 'case': case, 'detail': detail}) for k in self.ctx.known):
+            self.ctx.violation(clause, case, detail)          # a listed finding: recorded as such, never counted against the signature
+            return
+        sig = (clause, case.get('op'), case.get('raised', ''))
         self.seen[sig] = self.seen.get(sig, 0) + 1
         if self.seen[sig] <= self.per:
             self.ctx.violation(clause, case, detail)
@@ -297,10 +305,835 @@ def s2c_frames(ctx, report, cases, budget):
             ctx.sample({'s2c_case': c, 'expect': want})
 
 
+
+# ---------------------------------------------------------------------------------------------------------------------
+# X06-b: gaps
+# ---------------------------------------------------------------------------------------------------------------------
+def _today_base(today_abs):
+    """abstract stamp `today_abs` is rendered as the real today (ts_gap measures the last gap against dt(0))"""
+    import pandas as pd
+    import pyg_base as pg
+    return pd.Timestamp(pg.dt(0)) - pd.Timedelta(days=int(today_abs))
+
+
+def _deal(d, pick=0):
+    if d[0] == 'int':
+        return d[1]
+    if d[0] == 'other':
+        return 'zzz'
+    return d[0].upper() if (d[0] in ('last', 'raise') and pick % 3 == 2) else d[0]
+
+
+def call_gap(c, pick=0):
+    import numpy as np
+    import pandas as pd
+    import pyg_base as pg
+    reg = Registry()
+    op = c['op']
+    after = dict(c)
+    base = _today_base(c['today']) if 'today' in c else xf.BASE
+    obj = build(c['x'], reg, base=base)
+    if op == 'gap':
+        arg = obj.index if (pick % 3 == 2 and len(obj)) else obj
+        kw = {} if (c['recent'] and pick % 2) else {'recent': bool(c['recent'])}
+        err, res = outcome(lambda: pg.ts_gap(arg, **kw))
+    elif op == 'deal':
+        sc = c['scores']
+        scores = pd.Series(np.array([xf.number(v, ints=True) for v in seq(sc['v'])], dtype='int64'), index=xf.index_of(seq(sc['t']), base))
+        err, res = outcome(lambda: pg.ts_deal_with_issue(obj, lambda ts: scores, c['level'], _deal(c['deal'], pick)))
+    elif op == 'degap':
+        kw = {'recent': bool(c['recent'])} if (c['recent'] or pick % 2) else {}
+        if not (c['deal'] == ['last', 0] and pick % 2):
+            kw['deal'] = _deal(c['deal'], pick)
+        err, res = outcome(lambda: pg.ts_degap(obj, c['g'], **kw))
+    else:
+        raise ValueError(op)
+    out = err or {'kind': 'val', 'v': proj(res, base=base)}
+    if out['kind'] == 'exc':
+        out = {'kind': 'exc', 'cls': out['cls'], 'msg': out.get('msg', '')}
+    after['x'] = proj(obj, base=base)
+    return out, after
+
+
+def gap_key(c, out):
+    key = {'op': c['op'], 'raised': out.get('cls', '') if out.get('kind') == 'exc' else '', 'shape': shape_of(c['x']), 'rows': len(seq(c['x']['t']))}
+    if c['op'] != 'gap':
+        key.update(deal=c['deal'][0])
+    if c['op'] != 'deal':
+        key.update(recent=bool(c['recent']))
+    key['case'] = c
+    return key
+
+
+def same_any(want, out):
+    """the outcome is one of the outcomes TLC printed"""
+    for w in want['vs']:
+        if w['kind'] == 'exc':
+            if out['kind'] == 'exc' and out['cls'] == w['cls']:
+                return True
+        elif out['kind'] == 'val' and out['v'] == w['v']:
+            return True
+    return False
+
+
+def s2c_gaps(ctx, report, cases, budget):
+    cases = sorted(cases, key=lambda x: json.dumps(x['case'], sort_keys=True))
+    if budget and len(cases) > budget:
+        cases = ctx.rng.sample(cases, budget)
+        ctx.exhaustive = False
+    for n, x in enumerate(cases):
+        c, want = x['case'], x['want']
+        out, after = call_gap(c, pick=n)
+        ctx.evals += 1
+        ctx.traces += 1
+        if after != c:
+            report('operand_changed', gap_key(c, out), {'after': after})
+        elif not same_any(want, out):
+            report(c['op'] + ('_raised' if out['kind'] == 'exc' else '_result'), gap_key(c, out), {'expected_one_of': want['vs'], 'observed': out})
+        elif not any(w.get('v') == c['x'] for w in want['vs']):
+            ctx.note(('s2c-gap', json.dumps(c, sort_keys=True)))
+        if n % 999 == 0:
+            ctx.sample({'s2c_gap_case': c, 'expect_one_of': want['vs']})
+
+
+def run_gap_history(g, stamps, base=None):
+    """the caller's loop on real objects: kept = ts_degap(kept + the new row, g) for every stamp that arrives"""
+    import numpy as np
+    import pandas as pd
+    import pyg_base as pg
+    base = base or xf.BASE
+    kept = pd.Series(np.array([], dtype=float), index=xf.index_of([], base))
+    steps = []
+    for t in stamps:
+        new = pd.Series(np.array([100.0 + t]), index=xf.index_of([t], base))
+        both = pd.concat([kept, new]).sort_index() if len(kept) else new
+        kept = pg.ts_degap(both, g)
+        p = proj(kept, base=base)
+        steps.append({'t': t, 'kept': p.get('t', ['?']), 'vals': p.get('v', [])})
+    return steps
+
+
+def s2c_gap_histories(ctx, report, hists):
+    """TLC printed every history once per reading of 'over max_gap'; the caller's loop must follow one of them throughout"""
+    by = {}
+    for h in hists:
+        key = (h['g'], tuple(st['t'] for st in seq(h['hist'])))
+        by.setdefault(key, []).append([seq(st['kept']) for st in seq(h['hist'])])
+    for n, (key, wants) in enumerate(sorted(by.items())):
+        g, stamps = key
+        steps = run_gap_history(g, stamps)
+        ctx.evals += len(steps)
+        ctx.traces += 1
+        got = [st['kept'] for st in steps]
+        vals_ok = all(st['vals'] == [["f", [100 + t, 1]] for t in st['kept']] for st in steps)
+        case = {'op': 'gaphist', 'g': g, 'stamps': list(stamps), 'late': any(stamps[i] < max(stamps[:i]) for i in range(1, len(stamps)))}
+        if got not in wants:
+            report('gaphist_kept', case, {'expected_one_of': wants, 'observed': got})
+        elif not vals_ok:
+            report('gaphist_values', case, {'observed': steps})
+        elif len(set(map(json.dumps, got))) > 1:
+            ctx.note(('s2c-gaphist', g, stamps))
+        if n % 199 == 0:
+            ctx.sample({'s2c_gap_history': case, 'expect_one_of': wants})
+
+
+# ---------------------------------------------------------------------------------------------------------------------
+# X06-c: folds
+# ---------------------------------------------------------------------------------------------------------------------
+NOKW = ["nokw", 0]
+TS_FNS = ('tsadd', 'union', 'inter')
+
+
+class Term(object):
+    """a member with methods (reducing('name')): a plain value in a box"""
+    def __init__(self, v, log):
+        self.v, self.log = v, log
+
+    def _kw(self, kw):
+        return kw.get('k')
+
+    def pair(self, other, **kw):
+        self.log.append((self, other))
+        return Term((self.v, other.v) if not kw else (self.v, other.v, kw['k']), self.log)
+
+    def sub(self, other, **kw):
+        self.log.append((self, other))
+        return Term(self.v - other.v - (kw['k'] if kw else 0), self.log)
+
+
+def fold_member(fn, x):
+    from harness import enc
+    import pandas as pd
+    if fn in TS_FNS:
+        if x['k'] == 'x':
+            return None
+        if x['k'] == 'idx':
+            return xf.index_of(seq(x['t']))
+        return build(x, None)
+    return enc.untag(x)
+
+
+def fold_enc(fn, v):
+    from harness import enc
+    import pandas as pd
+    if isinstance(v, Term):
+        v = v.v
+    if fn in TS_FNS:
+        if v is None:
+            return {"k": "x", "id": 0}
+        if isinstance(v, pd.Index):
+            ks = xf.times(v) if len(v) else []
+            return {"k": "idx", "t": ks} if ks is not None else {"k": "o", "ty": type(v).__name__}
+        return proj(v)
+    return enc.tag(v)
+
+
+def fold_function(fn, log):
+    import pyg_base as pg
+
+    def f(a, b, **kw):
+        log.append((a, b))
+        if fn == 'pair':
+            return (a, b) if not kw else (a, b, kw['k'])
+        if fn == 'sub':
+            return a - b - (kw['k'] if kw else 0)
+        if fn == 'add':
+            return a + b + (kw['k'] if kw else 0)
+        if fn == 'cat':
+            return a + b
+        if fn == 'tsadd':
+            return pg.add_(a, b, **kw)
+        if fn == 'union':
+            return a.union(b)
+        if fn == 'inter':
+            return a.intersection(b)
+        raise ValueError(fn)
+    return f
+
+
+def fold_kw(fn, kw):
+    if kw == NOKW:
+        return {}
+    if fn == 'tsadd':
+        return {kw[0]: kw[1]}
+    return {'k': kw[1]}
+
+
+METHOD_NAMES = {'pair': 'pair', 'sub': 'sub', 'union': 'union', 'inter': 'intersection'}
+
+
+def call_fold(c, pick=0, by=None):
+    """reducer / reducing on a sequence -> ({v, calls, origin} | exc, the members encoded again afterwards)"""
+    import pyg_base as pg
+    fn, kw = c['fn'], fold_kw(c['fn'], c['kw'])
+    log = []
+    members = [fold_member(fn, x) for x in seq(c['xs'])]
+    dflt = fold_member(fn, c['dflt'])
+    by = by or ('method' if (fn in ('pair', 'sub') and pick % 4 == 3) or (fn in ('union', 'inter') and pick % 2) else 'callable')
+    if by == 'method' and fn in ('pair', 'sub'):
+        members = [Term(m, log) for m in members]
+    form = pick % 3
+    if by == 'method':
+        call = lambda: pg.reducing(METHOD_NAMES[fn])(members, default=dflt, **kw)
+        arg = members
+    elif kw or form == 0:
+        arg = list(members)
+        call = lambda: pg.reducing(fold_function(fn, log))(arg, default=dflt, **kw)
+    elif form == 1:
+        arg = list(members)
+        call = (lambda: pg.reducer(fold_function(fn, log), arg, dflt)) if dflt is not None else (lambda: pg.reducer(fold_function(fn, log), arg))
+    else:
+        arg = tuple(members)
+        call = lambda: pg.reducer(fold_function(fn, log), iter(arg), default=dflt)
+    err, res = outcome(call)
+    if err is not None:
+        out = {'kind': 'exc', 'cls': err['cls'], 'msg': err.get('msg', '')}
+    else:
+        origin = 'default' if (not members and res is dflt) else 'member' if (len(members) == 1 and res is members[0]) else 'made'
+        out = {'kind': 'val', 'v': fold_enc(fn, res), 'origin': origin}
+        out['seen'] = not (by == 'method' and fn in ('union', 'inter'))       # the calls of a method of pd.Index are not observable
+        out['calls'] = [{'a': fold_enc(fn, a), 'b': fold_enc(fn, b)} for a, b in log]
+    after = [fold_enc(fn, m) for m in arg] if len(arg) == len(members) else ['length changed', len(arg)]
+    return out, after, by
+
+
+def fold_key(c, out, by):
+    return {'op': 'fold', 'fn': c['fn'], 'n': len(seq(c['xs'])), 'kw': c['kw'] != NOKW, 'by': by,
+            'raised': out.get('cls', '') if out.get('kind') == 'exc' else '', 'case': c}
+
+
+def s2c_folds(ctx, report, cases, budget):
+    cases = sorted(cases, key=lambda x: json.dumps(x['case'], sort_keys=True))
+    if budget and len(cases) > budget:
+        cases = ctx.rng.sample(cases, budget)
+        ctx.exhaustive = False
+    for n, x in enumerate(cases):
+        c, want = x['case'], x['want']
+        out, after, by = call_fold(c, pick=n)
+        ctx.evals += 1
+        ctx.traces += 1
+        xs = seq(c['xs'])
+        if after != xs:
+            report('operand_changed', fold_key(c, out, by), {'after': after})
+        elif out['kind'] == 'exc':
+            report('fold_raised', fold_key(c, out, by), {'expected': want, 'observed': out})
+        elif out['seen'] and out['calls'] != seq(want['calls']):
+            report('fold_calls', fold_key(c, out, by), {'expected': seq(want['calls']), 'observed': out['calls']})
+        elif out['v'] != want['v']:
+            report('fold_result', fold_key(c, out, by), {'expected': want['v'], 'observed': out['v']})
+        elif out['origin'] != want['origin']:
+            report('fold_identity', fold_key(c, out, by), {'expected': want['origin'], 'observed': out['origin']})
+        elif len(xs) >= 2:
+            ctx.note(('s2c-fold', json.dumps(c, sort_keys=True)))
+        if n % 999 == 0:
+            ctx.sample({'s2c_fold_case': c, 'expect': want})
+
+
+def run_fold_history(obj, calls, pick=0):
+    """ONE reducing object, called again and again"""
+    import pyg_base as pg
+    fn, by = obj['fn'], obj['by']
+    log = []
+    R = pg.reducing(METHOD_NAMES[fn]) if by == 'method' else pg.reducing(fold_function(fn, log))
+    steps = []
+    for c in calls:
+        del log[:]
+        kw = fold_kw(fn, c['kw'])
+        wrap = (lambda v: Term(v, log)) if by == 'method' else (lambda v: v)
+        before = dict(R)
+        if c['form'] == 'seq':
+            members = [wrap(fold_member(fn, x)) for x in seq(c['xs'])]
+            dflt = fold_member(fn, c['dflt'])
+            if dflt is None and pick % 2:
+                err, res = outcome(lambda: R(members, **kw))
+            else:
+                err, res = outcome(lambda: R(members, default=dflt, **kw))
+        else:
+            a, b = wrap(fold_member(fn, c['a'])), wrap(fold_member(fn, c['b']))
+            err, res = outcome(lambda: R(a, b, **kw))
+        same = (dict(R) == before) and all(dict(R)[k] is before[k] for k in before)
+        if err is not None:
+            out = {'kind': 'exc', 'cls': err['cls'], 'msg': err.get('msg', '')}
+        else:
+            out = {'kind': 'val', 'v': fold_enc(fn, res), 'calls': [{'a': fold_enc(fn, x), 'b': fold_enc(fn, y)} for x, y in log]}
+        steps.append({'call': c, 'out': out, 'same': bool(same)})
+    return steps
+
+
+def s2c_fold_histories(ctx, report, hists, budget):
+    hists = sorted(hists, key=lambda x: json.dumps(x, sort_keys=True))
+    if budget and len(hists) > budget:
+        hists = ctx.rng.sample(hists, budget)
+        ctx.exhaustive = False
+    for n, h in enumerate(hists):
+        wants = seq(h['hist'])
+        steps = run_fold_history(h['obj'], [w['c'] for w in wants], pick=n)
+        ctx.evals += len(steps)
+        ctx.traces += 1
+        ok = True
+        for k, (st, w) in enumerate(zip(steps, wants)):
+            case = {'op': 'foldhist', 'fn': h['obj']['fn'], 'by': h['obj']['by'], 'step': k + 1, 'form': st['call']['form'],
+                    'kw': st['call']['kw'] != NOKW, 'raised': st['out'].get('cls', ''), 'calls': [x['c'] for x in wants]}
+            if st['out']['kind'] == 'exc':
+                report('foldhist_raised', case, {'observed': st['out']})
+            elif st['out']['calls'] != seq(w['calls']):
+                report('foldhist_calls', case, {'expected': seq(w['calls']), 'observed': st['out']['calls']})
+            elif st['out']['v'] != w['want']:
+                report('foldhist_result', case, {'expected': w['want'], 'observed': st['out']['v']})
+            elif not st['same']:
+                report('foldhist_object_changed', case, {})
+            else:
+                continue
+            ok = False
+            break
+        if ok:
+            ctx.note(('s2c-foldhist', json.dumps(h, sort_keys=True)))
+        if n % 499 == 0:
+            ctx.sample({'s2c_fold_history': h})
+
+
+# ---------------------------------------------------------------------------------------------------------------------
+# C2S: seeded random larger calls and histories, recorded and judged by spec/Trace_Frames.tla
+# ---------------------------------------------------------------------------------------------------------------------
+NAN = ["nan", 0]
+LETTERS = ["a", "b", "c", "d", "e", "p", "q", "r"]
+
+
+def val(p, q=1):
+    from fractions import Fraction
+    fr = Fraction(p, q)
+    return ["f", [fr.numerator, fr.denominator]]
+
+
+def r_cell(rng, values, pnan=0.2):
+    return NAN if rng.random() < pnan else rng.choice(values)
+
+
+def r_stamps(rng, T, prev=None):
+    style = rng.random()
+    if style < 0.07:
+        return []
+    if style < 0.3 and prev:
+        base = rng.choice(prev)
+        return sorted(rng.sample(base, rng.randint(0, len(base))))
+    if style < 0.5:
+        lo = rng.randint(1, T); hi = rng.randint(lo, min(T, lo + rng.randint(0, 8)))
+        return list(range(lo, hi + 1))
+    dens = rng.choice([0.2, 0.5, 0.9])
+    return [t for t in range(1, T + 1) if rng.random() < dens]
+
+
+VALUES = [val(k) for k in (0, 1, 2, 3, 5, 8, 13, -4, 40)] + [val(1, 2), val(-3, 2), val(7, 4)]
+AGGVALS = [val(k) for k in (0, 12, 24, -24, 36, -12, 48)]
+
+
+def r_series(rng, T, prev, values=VALUES, pnan=0.2):
+    ts = r_stamps(rng, T, prev)
+    prev.append(ts)
+    return {"k": "s", "t": ts, "v": [r_cell(rng, values, pnan) for _ in ts]}
+
+
+def r_frame(rng, T, prev, width=None, values=VALUES, pnan=0.2, names=None):
+    ts = r_stamps(rng, T, prev)
+    prev.append(ts)
+    w = width or rng.choice([2, 2, 3])
+    names = names or sorted(rng.sample(LETTERS, w))
+    return {"k": "pf", "t": ts, "h": [["s", n] for n in names], "v": [[r_cell(rng, values, pnan) for _ in ts] for _ in names]}
+
+
+def r_methods(rng):
+    m = rng.random()
+    if m < 0.4:
+        return [], 0
+    if m < 0.55:
+        return [["ffill", 0]], rng.choice([0, 0, 1, 2])
+    if m < 0.7:
+        return [["bfill", 0]], rng.choice([0, 0, 1, 2])
+    if m < 0.8:
+        return [["ffill", 0], ["bfill", 0]], rng.choice([0, 1])
+    if m < 0.9:
+        return [["bfill", 0], ["ffill", 0]], 0
+    return [["const", rng.choice([val(0), val(7), val(-1, 2)])]], 0
+
+
+def r_leafy(rng, T, prev, depth=0):
+    """a collection of frames, series and other things"""
+    k = rng.random()
+    if depth < 2 and k < 0.25:
+        return {"k": "l", "items": [r_leafy(rng, T, prev, depth + 1) for _ in range(rng.randint(0, 3))]}
+    if depth < 2 and k < 0.4:
+        keys = rng.sample(["x", "y", "z", "w"], rng.randint(1, 3))
+        return {"k": "d", "keys": keys, "items": [r_leafy(rng, T, prev, depth + 1) for _ in keys]}
+    if k < 0.7:
+        return r_frame(rng, T, prev, width=rng.choice([2, 3, 4]))
+    if k < 0.8:
+        return r_frame(rng, T, prev, width=1)
+    if k < 0.9:
+        return r_series(rng, T, prev)
+    return rng.choice([{"k": "x", "id": rng.randint(1, 5)}, {"k": "c", "v": val(rng.randint(0, 9))}])
+
+
+def r_frames_case(rng):
+    op = rng.choice(['concat1'] * 5 + ['concat0'] * 2 + ['as_series'] * 2 + ['column'] * 3 + ['columns', 'recolumn', 'recolumn', 'np_reindex', 'np_reindex',
+                     'drop_dup', 'drop_dup', 'mask2v', 'mask2v', 'apply', 'apply', 'apply', 'sf', 'sf'])
+    T = rng.choice([4, 8, 20, 30])
+    prev = []
+    if op == 'concat1':
+        n = rng.choice([1, 2, 2, 3, 3, 4, 5])
+        mix = rng.random()
+        kinds = ['s'] if mix < 0.35 else ['s', 's', 'p'] if mix < 0.5 else ['f'] if mix < 0.6 else ['s', 'f', 'p', 'c']
+        xs = []
+        for _ in range(n):
+            k = rng.choice(kinds)
+            xs.append(r_series(rng, T, prev) if k == 's' else r_frame(rng, T, prev, width=1) if k == 'p' else r_frame(rng, T, prev) if k == 'f'
+                      else {"k": "c", "v": rng.choice(VALUES)})
+        if all(x['k'] == 'c' for x in xs):
+            xs[0] = r_series(rng, T, prev)
+        width = sum(len(x['h']) if x['k'] == 'pf' else 1 for x in xs)
+        nk = rng.random()
+        names = {"k": "none"}
+        if nk < 0.45:
+            names = {"k": "list", "v": ['n%d' % j for j in range(width)] if rng.random() < 0.7 else rng.sample(LETTERS, width) if width <= 8 else ['m%d' % j for j in range(width)]}
+        elif nk < 0.6 and all(x['k'] == 'pf' for x in xs):
+            src = rng.sample(LETTERS, 3)
+            names = {"k": "map", "from": src, "to": [s_.upper() for s_ in src]}
+        ms, lim = r_methods(rng)
+        return {"op": op, "xs": xs, "names": names, "join": rng.choice(['outer', 'outer', 'inner']), "ms": ms, "lim": lim}
+    if op == 'concat0':
+        n = rng.choice([1, 2, 2, 3, 4])
+        if rng.random() < 0.65:
+            hs = rng.choice([['p'], ['p', 'q'], ['p', None], [None]])
+            xs = []
+            for _ in range(n):
+                h = rng.choice(hs)
+                xs.append(r_series(rng, T, prev) if h is None else r_frame(rng, T, prev, names=[h]))
+            return {"op": op, "xs": xs, "name": rng.choice([NONAME, NONAME, ["s", "z"]]), "join": "outer"}
+        xs = [r_frame(rng, T, prev, width=rng.choice([2, 3])) for _ in range(n)]
+        return {"op": op, "xs": xs, "name": NONAME, "join": rng.choice(['outer', 'inner'])}
+    if op == 'as_series':
+        col = rng.choice([NONAME, NONAME, ["s", "z"], ["s", "p"]])
+        if rng.random() < 0.3:
+            x = rng.choice([r_series(rng, T, prev), r_frame(rng, T, prev, width=1), r_frame(rng, T, prev)])
+            return {"op": op, "form": "one", "x": x, "col": col, "uc": False}
+        members = []
+        hs = rng.choice([['p'], ['p', 'q'], ['p', None], [None], ['p', 'wide']])
+        for _ in range(rng.randint(0, 4)):
+            h = rng.choice(hs + ['leaf'] * (rng.random() < 0.3))
+            members.append(r_series(rng, T, prev) if h is None else {"k": "x", "id": rng.randint(1, 5)} if h == 'leaf'
+                           else r_frame(rng, T, prev) if h == 'wide' else r_frame(rng, T, prev, names=[h]))
+        return {"op": op, "form": "list", "x": {"k": "l", "items": members}, "col": col, "uc": rng.random() < 0.5}
+    if op == 'column':
+        k = rng.random()
+        dflt = rng.choice([{"k": "c", "v": NAN}, {"k": "c", "v": val(0)}, {"k": "x", "id": 3}])
+        if k < 0.35:
+            x = r_leafy(rng, T, prev)
+            return {"op": op, "x": x, "name": ["s", rng.choice(LETTERS)], "i": -1, "n": -1, "dflt": dflt}
+        if k < 0.6:
+            x = r_frame(rng, T, prev, width=rng.choice([1, 2, 3, 4]))
+            return {"op": op, "x": x, "name": ["s", rng.choice(LETTERS)], "i": -1, "n": -1, "dflt": dflt}
+        i = rng.randint(0, 4)
+        n = rng.choice([-1, -1, 2, 3, 4])
+        if k < 0.8:
+            w = rng.choice([2, 3, 4])
+            base = rng.sample(LETTERS, w - 1)
+            x = r_frame(rng, T, prev, names=sorted(base + [rng.choice(base)]))              # one header twice
+        else:
+            rows, w = rng.randint(0, 5), rng.choice([1, 2, 3, 4])
+            x = {"k": "m", "rows": rows, "v": [[r_cell(rng, VALUES) for _ in range(rows)] for _ in range(w)]}
+        return {"op": op, "x": x, "name": NONAME, "i": i, "n": n, "dflt": dflt}
+    if op in ('columns', 'recolumn'):
+        tree = r_leafy(rng, T, prev)
+        if tree['k'] not in ('l', 'd') or rng.random() < 0.5:
+            tree = {"k": "l", "items": [tree, r_frame(rng, T, prev, width=rng.choice([2, 3])), r_leafy(rng, T, prev, 1)]}
+        if op == 'columns':
+            return {"op": op, "tree": tree, "pol": rng.choice(['ij', 'oj', 'lj', 'rj'])}
+        return {"op": op, "tree": tree, "names": rng.sample(LETTERS, rng.randint(0, 5)), "pol": "given", "as": rng.choice(['list', 'index'])}
+    if op == 'np_reindex':
+        rows = rng.randint(0, 12)
+        T_ = sorted(rng.sample(range(1, 40), rng.randint(0, 12)))
+        if rng.random() < 0.4:
+            w = rng.choice([1, 2, 3])
+            a = {"k": "m", "rows": rows, "v": [[r_cell(rng, VALUES) for _ in range(rows)] for _ in range(w)]}
+            names = rng.sample(LETTERS, w) if rng.random() < 0.6 else []
+        else:
+            a = {"k": "a", "n": rows, "v": [r_cell(rng, VALUES) for _ in range(rows)]}
+            names = []
+        return {"op": op, "a": a, "T": T_, "names": names}
+    if op == 'drop_dup':
+        n = rng.randint(0, 15)
+        t = [rng.randint(1, rng.choice([3, 6, 20])) for _ in range(n)]
+        if rng.random() < 0.3:
+            t = sorted(t)
+        if rng.random() < 0.4:
+            x = {"k": "pf", "t": t, "h": [["s", "a"], ["s", "b"]], "v": [[val(100 + r) for r in range(n)], [r_cell(rng, VALUES) for _ in range(n)]]}
+        else:
+            x = {"k": "s", "t": t, "v": [val(100 + r) if rng.random() < 0.8 else NAN for r in range(n)]}
+        return {"op": op, "x": x, "keep": rng.choice(['first', 'last'])}
+    if op == 'mask2v':
+        cells = [NAN, val(0), val(1), val(2), val(5), val(1, 2)]
+        k = rng.random()
+        if k < 0.15:
+            x = {"k": "c", "v": rng.choice(cells)}
+        elif k < 0.55:
+            x = r_series(rng, T, prev, values=cells, pnan=0.25)
+        elif k < 0.85:
+            x = r_frame(rng, T, prev, values=cells, pnan=0.25)
+        else:
+            n = rng.randint(0, 8)
+            x = {"k": "a", "n": n, "v": [r_cell(rng, cells) for _ in range(n)]}
+        ms = rng.sample(cells, rng.choice([1, 1, 2, 3]))
+        return {"op": op, "x": x, "ms": ms, "value": rng.choice([val(0), val(9), NAN, val(1)]), "form": 'one' if len(ms) == 1 and rng.random() < 0.6 else 'list'}
+    if op == 'apply':
+        rows, w = rng.randint(1, 4), rng.randint(1, 4)
+        x = {"k": "pf", "t": sorted(rng.sample(range(1, 20), rows)), "h": [["s", n] for n in sorted(rng.sample(LETTERS, w))],
+             "v": [[r_cell(rng, AGGVALS, 0.35) for _ in range(rows)] for _ in range(w)]}
+        exc = rng.choice([[NAN], [NAN], [val(0)], [val(0), NAN], [], [val(12), NAN, val(0)]])
+        return {"op": op, "x": x, "func": rng.choice(['sum', 'count', 'max', 'min', 'mean']), "axis": rng.choice([0, 0, 1]), "exc": exc}
+    if op == 'sf':
+        k = rng.random()
+        if k < 0.5:
+            c = val(rng.randint(1, 99999) * rng.choice([1, 1, -1]))
+        elif k < 0.9:
+            c = val(rng.randint(1, 79999) * rng.choice([1, -1]), 8)
+        else:
+            c = rng.choice([NAN, val(0)])
+        return {"op": op, "c": c, "n": rng.randint(1, 3)}
+    raise ValueError(op)
+
+
+def r_gap_case(rng):
+    op = rng.choice(['gap', 'deal', 'deal', 'degap', 'degap', 'degap'])
+    N = rng.choice([6, 12, 40])
+    today = N + rng.choice([0, 1, 3, 10])
+    ts = sorted(rng.sample(range(1, N + 1), rng.randint(0, min(N, 14))))
+    if rng.random() < 0.3:
+        x = {"k": "pf", "t": ts, "h": [["s", "a"], ["s", "b"]], "v": [[val(10 + t) for t in ts], [r_cell(rng, VALUES) for _ in ts]]}
+    else:
+        x = {"k": "s", "t": ts, "v": [val(10 + t) if rng.random() < 0.85 else NAN for t in ts]}
+    deal = rng.choice([['last', 0]] * 4 + [['no_first', 0], ['no_first', 0], ['raise', 0], ['other', 0]] + [['int', k] for k in (-3, -2, -1, 0, 1, 2)])
+    if op == 'gap':
+        return {"op": op, "x": x, "today": today, "recent": rng.random() < 0.6}
+    if op == 'deal':
+        st = sorted(rng.sample(ts, rng.randint(0, len(ts)))) if rng.random() < 0.7 else sorted(rng.sample(range(1, N + 1), rng.randint(0, min(N, 8))))
+        scores = {"k": "s", "t": st, "v": [val(rng.randint(0, 4)) for _ in st]}
+        return {"op": op, "x": x, "scores": scores, "level": rng.choice([0, 1, 2, 3, 4]), "deal": deal}
+    return {"op": op, "x": x, "today": today, "g": rng.choice([0, 1, 2, 2, 3, 5, 11]), "deal": deal, "recent": rng.random() < 0.4}
+
+
+def r_fold_value(rng, fn, i, T=6):
+    if fn in ('pair', 'sub', 'add'):
+        return ["i", rng.randint(-9, 9)]
+    if fn == 'cat':
+        return ["l", [["i", rng.randint(0, 5)] for _ in range(rng.randint(0, 3))]]
+    if fn == 'tsadd':
+        ts = [t for t in range(1, T + 1) if rng.random() < 0.7]
+        return {"k": "s", "t": ts, "v": [NAN if rng.random() < 0.2 else val(rng.choice([0, 1, 2, 4, 8, -2])) for _ in ts]}
+    return {"k": "idx", "t": [t for t in range(1, T + 1) if rng.random() < 0.6]}
+
+
+def r_fold_case(rng):
+    fn = rng.choice(['pair', 'pair', 'sub', 'sub', 'add', 'cat', 'tsadd', 'tsadd', 'union', 'inter'])
+    n = rng.choice([0, 1, 2, 3, 3, 4, 5, 8]) if fn not in TS_FNS else rng.choice([0, 1, 2, 3, 4])
+    xs = [r_fold_value(rng, fn, i) for i in range(n)]
+    dflt = rng.choice([{"k": "x", "id": 0}, {"k": "idx", "t": []}]) if fn in TS_FNS else rng.choice([["n", 0], ["i", 0], ["i", 7]])
+    kw = NOKW
+    if fn in ('pair', 'sub', 'add') and rng.random() < 0.3:
+        kw = ["i", rng.randint(1, 5)]
+    if fn == 'tsadd' and rng.random() < 0.5:
+        kw = ["join", "oj"]
+    return {"op": "fold", "fn": fn, "xs": xs, "dflt": dflt, "kw": kw}
+
+
+def r_fold_history(rng):
+    fn = rng.choice(['pair', 'sub'])
+    obj = {"fn": fn, "by": rng.choice(['callable', 'method'])}
+    calls = []
+    for _ in range(rng.randint(3, 8)):
+        kw = ["i", rng.randint(1, 5)] if rng.random() < 0.35 else NOKW
+        if rng.random() < 0.65:
+            calls.append({"form": "seq", "xs": [["i", rng.randint(-9, 9)] for _ in range(rng.choice([0, 1, 2, 3, 5]))],
+                          "dflt": rng.choice([["n", 0], ["i", 0]]), "kw": kw})
+        else:
+            calls.append({"form": "two", "a": ["i", rng.randint(-9, 9)], "b": ["i", rng.randint(-9, 9)], "kw": kw})
+    return obj, calls
+
+
+def corrupt(rng, line):
+    """a copy of an accepted line with ONE recorded field changed (None: nothing to change in this line)"""
+    o = json.loads(json.dumps(line))
+    op = o['op']
+
+    def bump(c):
+        return ["f", [c[1][0] + c[1][1], c[1][1]]] if c[0] == "f" else val(1)
+    if op == 'gaphist':
+        st = o['steps'][-1]
+        if st['kept']:
+            st['kept'] = st['kept'][1:]; st['vals'] = st['vals'][1:]
+            return o, 'gaphist_kept'
+        return None
+    if op == 'fold':
+        if o['out']['kind'] != 'val':
+            return None
+        if o['out']['calls'] and o['out']['seen']:
+            o['out']['calls'] = o['out']['calls'][:-1]
+            return o, 'fold_calls'
+        o['out']['origin'] = 'made' if o['out']['origin'] != 'made' else 'member'
+        return o, 'fold_identity'
+    if op == 'foldhist':
+        st = o['steps'][-1]
+        st['same'] = False
+        return o, 'foldhist_object_changed'
+    out = o['out']
+    if out['kind'] != 'val':
+        return None
+    v = out['v']
+    if op == 'sf':
+        out['v'] = bump(v) if v[0] == "f" else val(1)
+        return o, 'sf_result'
+    if isinstance(v, dict) and v.get('k') == 's' and v['v']:
+        j = rng.randrange(len(v['v']))
+        v['v'][j] = bump(v['v'][j])
+        return o, op + '_values'
+    if isinstance(v, dict) and v.get('k') == 'pf' and v['v'] and v['v'][0]:
+        j = rng.randrange(len(v['v']))
+        r = rng.randrange(len(v['v'][j]))
+        v['v'][j][r] = bump(v['v'][j][r])
+        return o, op + '_values'
+    if isinstance(v, dict) and v.get('k') in ('s', 'pf') and not v['t']:
+        v['t'] = [1]
+        if v['k'] == 's':
+            v['v'] = [val(1)]
+        else:
+            v['v'] = [[val(1)] for _ in v['h']]
+        return o, op + '_index'
+    return None
+
+
+def c2s(ctx, report, n_frames, n_gaps, n_hist, n_folds, n_fhist):
+    rng = ctx.rng
+    obs, keys = [], []
+    for k in range(n_frames):
+        c = r_frames_case(rng)
+        out, after = call_frames(c, pick=rng.randrange(12))
+        obs.append({'op': c['op'], 'case': c, 'out': out, 'after': after}); keys.append(case_key(c, out))
+    for k in range(n_gaps):
+        c = r_gap_case(rng)
+        out, after = call_gap(c, pick=rng.randrange(6))
+        obs.append({'op': c['op'], 'case': c, 'out': out, 'after': after}); keys.append(gap_key(c, out))
+    for k in range(n_hist):
+        N = rng.choice([8, 15, 30])
+        stamps = rng.sample(range(1, N + 1), rng.randint(2, min(N, 12)))
+        if rng.random() < 0.4:
+            stamps = sorted(stamps)
+        g = rng.choice([1, 2, 2, 3, 5])
+        steps = run_gap_history(g, stamps)
+        obs.append({'op': 'gaphist', 'g': g, 'steps': steps})
+        keys.append({'op': 'gaphist', 'g': g, 'stamps': stamps, 'late': stamps != sorted(stamps)})
+    for k in range(n_folds):
+        c = r_fold_case(rng)
+        out, after, by = call_fold(c, pick=rng.randrange(12))
+        obs.append(dict(c, out=out, after=after, by=by)); keys.append(fold_key(c, out, by))
+    for k in range(n_fhist):
+        obj, calls = r_fold_history(rng)
+        steps = run_fold_history(obj, calls, pick=rng.randrange(2))
+        obs.append({'op': 'foldhist', 'obj': obj, 'steps': steps})
+        keys.append({'op': 'foldhist', 'fn': obj['fn'], 'by': obj['by'], 'calls': calls, 'raised': ''})
+    ctx.evals += len(obs)
+    # binding: corrupted copies (one recorded field changed) of lines of every kind ride along and must be rejected
+    planted = []
+    per_op = {}
+    order = list(range(len(obs)))
+    rng.shuffle(order)
+    for k in order:
+        op = obs[k]['op']
+        if per_op.get(op, 0) >= 3:
+            continue
+        cor = corrupt(rng, obs[k])
+        if cor is not None:
+            per_op[op] = per_op.get(op, 0) + 1
+            planted.append((k, cor[0], cor[1]))
+    log = obs + [p[1] for p in planted]
+    bad = dict((ln, clause) for ln, clause in ctx.validate('Trace_Frames', log, cfg='Trace_Frames.cfg'))
+    from harness.core import Machinery
+    binding = {}
+    outside = 0
+    for j, (k, cor, clause) in enumerate(planted):
+        ln = len(obs) + j + 1
+        original_rejected = (k + 1) in bad
+        if ln not in bad:
+            raise Machinery('binding: a corrupted copy of line %d (%s: one field changed) was accepted by Trace_Frames' % (k + 1, cor['op']))
+        if not original_rejected:
+            binding[cor['op']] = binding.get(cor['op'], 0) + 1
+    for ln, clause in sorted(bad.items()):
+        if ln > len(obs):
+            continue
+        if clause == 'outside_domain':
+            outside += 1
+            continue
+        o = obs[ln - 1]
+        report(clause, keys[ln - 1], {'observed': o.get('out', o.get('steps'))})
+    if outside * 20 > len(obs):
+        raise Machinery('vacuous: %d of %d recorded lines lie outside the domain of the statement' % (outside, len(obs)))
+    ctx.extra['binding_check'] = {'corrupted_copies_rejected': binding, 'planted': len(planted)}
+    ctx.extra['lines_outside_domain'] = outside
+    for k, o in enumerate(obs):
+        if (k + 1) not in bad:
+            ctx.note(('c2s', k))
+    ctx.sample({'c2s_line': obs[len(obs) // 5]})
+    ctx.sample({'c2s_line': obs[-1]})
+
+def replay(ctx, body):
+    """./check X06 --replay <file>: run one recorded case again and let Trace_Frames judge it"""
+    k = body['case']
+    c = k.get('case')
+    if k.get('op') == 'gaphist':
+        line = {'op': 'gaphist', 'g': k['g'], 'steps': run_gap_history(k['g'], k['stamps'])}
+    elif k.get('op') == 'foldhist':
+        line = {'op': 'foldhist', 'obj': {'fn': k['fn'], 'by': k['by']}, 'steps': run_fold_history({'fn': k['fn'], 'by': k['by']}, k['calls'])}
+    elif k.get('op') == 'fold':
+        out, after, by = call_fold(c, by=k.get('by'))
+        line = dict(c, out=out, after=after, by=by)
+    elif c is not None and c['op'] in ('gap', 'deal', 'degap'):
+        out, after = call_gap(c)
+        line = {'op': c['op'], 'case': c, 'out': out, 'after': after}
+    elif c is not None:
+        out, after = call_frames(c, pick=1)
+        line = {'op': c['op'], 'case': c, 'out': out, 'after': after}
+    else:
+        print('no single-case replay for %s' % json.dumps(k)[:300])
+        return 2
+    bad = ctx.validate('Trace_Frames', [line], cfg='Trace_Frames.cfg')
+    print(json.dumps({'observed': line.get('out', line.get('steps')), 'verdict': bad[0][1] if bad else 'explained by the specification'})[:3000])
+    return 1 if bad else 0
+
+
+RULE = ('S2C: every call / history TLC enumerates (MC_Frames, MC_FramesGap, MC_FramesFold generator configurations; seeded samples of the large '
+        'families in the quick tier) is replayed through the public API on freshly built pandas / numpy objects; outcome == the outcome TLC printed '
+        '(one of them where the statement admits several), operands projected again afterwards == the operands. C2S: seeded random larger calls, '
+        'degapping histories and reducing-object histories recorded and judged by Trace_Frames; corrupted copies of accepted lines ride along and '
+        'must be rejected. Non-trivial = the expected result is neither empty nor one of the operands (calls), the kept rows change along the '
+        'history (gap histories), at least two members (folds); distinct by the abstract case.')
+
+
 def run(ctx):
-    ctx.rule = 'work in progress'
+    import os
+    from harness.x_tlcpar import Prefetch
+    ctx.rule = RULE
     report = Reporter(ctx)
     ctx.exhaustive = True
-    ctx.mc('MC_Frames', 'MC_Frames_quick.cfg')
-    s2c_frames(ctx, report, ctx.generate('MC_Frames', 'MC_Frames_gen_quick.cfg'), {'concat1': 4000, 'apply': 1200, '*': 1500})
+    if os.environ.get('VERIF_X06_ACCEPT_PROPOSED') == '1':
+        # the defects of the unchanged tree found by this check, as PROPOSED known findings (extensions/X06.known.json); they are
+        # applied only on request (sensitivity runs: a mutant must show as exit 1 against a baseline of exit 0)
+        with open(os.path.join(os.path.dirname(os.path.dirname(os.path.abspath(__file__))), 'extensions', 'X06.known.json')) as f:
+            ctx.known = ctx.known + [k for k in json.load(f)['known'] if k['property'] == ctx.pid]
+    q = ctx.quick
+    tier = 'quick' if q else 'thorough'
+    only = os.environ.get('X06_ONLY', 'abc')          # development aid: a = frame helpers, b = gaps, c = folds (default: all)
+    mcs = [('MC_Frames', 'MC_Frames_%s.cfg' % tier, None), ('MC_FramesGap', 'MC_FramesGap_hist_%s.cfg' % tier, None),
+           ('MC_FramesGap', 'MC_FramesGap_restored.cfg', 'Restored'), ('MC_FramesFold', 'MC_FramesFold_obj_%s.cfg' % tier, None),
+           ('MC_FramesFold', 'MC_FramesFold_leaky.cfg', 'AnswerIsLaw')]
+    if not q:
+        mcs += [('MC_FramesGap', 'MC_FramesGap_thorough.cfg', None), ('MC_FramesFold', 'MC_FramesFold_thorough.cfg', None)]
+    gens = [('MC_Frames', 'MC_Frames_gen_%s.cfg' % tier), ('MC_FramesGap', 'MC_FramesGap_gen_%s.cfg' % tier), ('MC_FramesGap', 'MC_FramesGap_genhist_%s.cfg' % tier),
+            ('MC_FramesFold', 'MC_FramesFold_gen_%s.cfg' % tier), ('MC_FramesFold', 'MC_FramesFold_genobj_%s.cfg' % tier)]
+    fam = {'MC_Frames': 'a', 'MC_FramesGap': 'b', 'MC_FramesFold': 'c'}
+    mcs = [x for x in mcs if fam[x[0]] in only]
+    with Prefetch(ctx.tmp, parallel=int(os.environ.get('X06_PARALLEL', '4'))) as ahead:
+        for m, cfg, fail in mcs:
+            ahead.submit(m, cfg, coverage=(fail is None))
+        for m, cfg in gens:
+            if fam[m] in only:
+                ahead.submit(m, cfg, coverage=False)
+        for m, cfg, fail in mcs:
+            if fail:
+                ctx.mc(m, cfg, must_fail=fail, coverage=False)
+            else:
+                ctx.mc(m, cfg)
+        # (the quick generator configurations of the gap and fold calls carry every INVARIANT of MC_FramesGap_quick.cfg /
+        #  MC_FramesFold_quick.cfg: one run checks the clauses and prints the cases)
+        if 'a' in only:
+            s2c_frames(ctx, report, ctx.generate(*gens[0]), {'concat1': 3000, 'apply': 800, '*': 1000} if q else {'concat1': 30000, 'apply': 6000, '*': 12000})
+        if 'b' in only:
+            s2c_gaps(ctx, report, ctx.generate(*gens[1]), 2500 if q else 0)
+            s2c_gap_histories(ctx, report, ctx.generate(*gens[2]))
+        if 'c' in only:
+            s2c_folds(ctx, report, ctx.generate(*gens[3]), 3000 if q else 40000)
+            s2c_fold_histories(ctx, report, ctx.generate(*gens[4]), 1500 if q else 20000)
+    k = 1 if q else 10
+    c2s(ctx, report, 1500 * k * ('a' in only), 500 * k * ('b' in only), 150 * k * ('b' in only), 500 * k * ('c' in only), 100 * k * ('c' in only))
     ctx.extra['violation_signatures'] = report.summary()
+    ctx.assumptions += [
+        'time k is the day 2000-01-01 + k (for the gap functions: today - (today_abstract - k) days, so that the abstract `today` is the real one); '
+        'cells are NaN or exact rationals (integers, halves, quarters, eighths); sums / means are taken over value families on which they are exact',
+        'df_concat side by side: operands are series / frames on strictly increasing stamps, numbers, and (S2C only) one bare array as long as the joint '
+        'index; without names the headers of the result are not pinned (DefaultHeaders); a constant fill is used without a limit (ConstLimit of C12); '
+        'stacked (axis 0): all operands single-column, or all proper frames with string headers, no fill',
+        'df_column by name: the name is not one of a duplicated header; by position: i >= 0; df_columns / df_recolumn: frames with duplicated headers '
+        'and 2-d arrays are not proper frames (left alone / not counted)',
+        "ts_degap: a gap of exactly max_gap days may or may not count as an issue (GapAtLevel: docstring 'over max_gap', code and error message "
+        "'>= level'); stamps are whole days, not after today; ts_deal_with_issue: whole-number scores",
+        'sf: n = 1..3, 1/1000 <= |x| < 100000 with denominator <= 8; the result may keep n or n + 1 significant figures (SfDigits, the docstring example '
+        'keeps n + 1) and is read to the sixth decimal (SfFloatNoise)',
+        'reducing(f)(a, b): b is not None (NoneIsNoOperand); the calls of f are observed for Python callables and for methods of boxed values, not for '
+        'methods of pd.Index',
+        'small scope: MC / S2C over <= 3 (thorough 4) stamps for pairs, 2 (3) for frames; C2S over <= 30 stamps, <= 5 operands, histories of <= 12 rows']
